@@ -67,6 +67,7 @@ var readers = []string{
 	"print \"no input needed\"\n",
 	"l := read\nif l == \"q\"\n    exit 3\nend\nif l == \"p\"\n    panic \"asked to panic\"\nend\nprint l[0] l[-1] l[1:]\n",
 	"sleep 0.001\nl := read\nprint (split l \" \") (trim l \" \")\ntest (len l) (len l)\n",
+	"l := read + \"h\\xc3\\xa9llo\\xff\"\nprint l (len l) l[1:] l[-1] l[:-1] l[2:4]\nfor c := range l\n    print c (len c)\nend\nprint (upper l) (index l \"o\") (split l \"l\")\n",
 }
 
 // Base builds item idx.
